@@ -163,13 +163,17 @@ func msgVariant(v int, mid string) sess.MsgSpec {
 		s.MID = midForChecksum(mid, 0xff)
 	case 28: // block checksum 80
 		s.MID = midForChecksum(mid, 0x80)
+	case 29: // incompressible: the compressed size exceeds the uncompressed size
+		s.Files = []sess.FileSpec{{Name: "rnd.bin", Data: lcgBytes(2500, 77, 0)}}
+	case 30: // incompressible and several chunks, larger than the 4096-byte reader buffers
+		s.Files = []sess.FileSpec{{Name: "rnd.bin", Data: lcgBytes(5000, 78, 0)}}
 	default:
 		panic("no such variant")
 	}
 	return s
 }
 
-const nMsgVariants = 29
+const nMsgVariants = 31
 
 func midFor(side string, i int) string { return fmt.Sprintf("%sMSG%07d%c", side, i, 'A'+byte(i%26)) } // 12 alphanumerics
 
